@@ -83,6 +83,11 @@ where
             {
                 return_current!()
             }
+            StreamElement::Terminate | StreamElement::FlushAndRestart => {
+                // a window the user logic never asked to commit ends with its iteration: it must
+                // not leak into the next one
+                self.w = None;
+            }
             StreamElement::Item(_) => panic!(
                 "Non timestamped streams are not currently supported with transaction windows!"
             ),
